@@ -202,6 +202,7 @@ fn main() {
         };
         let mut buf = vec![0u8; 1 << 16];
         let mut peer_closed = vec![false; objs.len()];
+        let mut watched_closed = vec![false; objs.len()];
         for (i, op) in p["ops"].as_array().unwrap().iter().enumerate() {
             CUR.store(seq << 16 | i as u64, Ordering::SeqCst);
             PROGRESS.fetch_add(1, Ordering::SeqCst);
@@ -267,6 +268,11 @@ fn main() {
                 "close_peer" => unsafe {
                     libc::close(objs[o.unwrap()].peer);
                     peer_closed[o.unwrap()] = true;
+                    rec["res"] = json!("ok");
+                },
+                "close_watched" => unsafe {
+                    libc::close(objs[o.unwrap()].watched);
+                    watched_closed[o.unwrap()] = true;
                     rec["res"] = json!("ok");
                 },
                 "register" | "modify" | "unregister" | "register_bad" => {
@@ -407,7 +413,9 @@ fn main() {
         CUR.store(u64::MAX, Ordering::SeqCst);
         for (k, ob) in objs.iter().enumerate() {
             unsafe {
-                libc::close(ob.watched);
+                if !watched_closed[k] {
+                    libc::close(ob.watched);
+                }
                 if !peer_closed[k] {
                     libc::close(ob.peer);
                 }
